@@ -42,12 +42,23 @@ func runC04(cfg *hx.Config) {
 		}
 	}
 	rec("")
+	allStrings := all
 	types := c04Types
 	if cfg.Thorough() {
 		types = c04Types[:4]
 	}
 	const chunk = 400
-	for _, tname := range types {
+	for ti, tname := range types {
+		// thorough: length 5 (12^5 strings) for the first two types only - the whole product costs ~25 min of model evaluation
+		all := all
+		if cfg.Thorough() && ti >= 2 {
+			all = nil
+			for _, s := range allStrings {
+				if len(s) <= 4 {
+					all = append(all, s)
+				}
+			}
+		}
 		for _, f := range []int{2, 4} {
 			for lo := 0; lo < len(all); lo += chunk {
 				hi := minInt(lo+chunk, len(all))
